@@ -1018,6 +1018,10 @@ fn c18(args: &Args) -> ! {
                 rep.violation(&format!("C18/{}/upgrade", mname), &format!("upgrade reply ok={}, {} of {} payload bytes came back{} ; stderr {:?}", ok_reply, echoed.len(), payload.len(), if echoed.len() == payload.len() { " but differ" } else { "" }, stderr.chars().take(200).collect::<String>()), case.clone());
             } else if status == "hang" {
                 rep.violation(&format!("C18/{}/hang-after-close", mname), "the bridge did not exit within 10 s after the client closed the upgraded session", case.clone());
+            } else if status != "exit:0" && (status == "signal" || stderr.trim().is_empty() || stderr.contains("fatal runtime error")) {
+                // the client closed its side after every byte had come back: no I/O error occurred, the bridge must report success
+                // (a non-zero exit with a diagnostic naming an I/O error is tolerated, a death by signal or a runtime abort is not)
+                rep.violation(&format!("C18/{}/upgrade-exit-status", mname), &format!("after a complete upgraded session the bridge ended with {} ; stderr {:?}", status, stderr.chars().take(300).collect::<String>()), case.clone());
             }
         }
     }
